@@ -126,11 +126,13 @@ namespace
                 std::vector<int> m[2];
                 v[0].reset(new Vec());
                 v[1].reset(new Vec());
-                auto expect_destroyed = [&](long before, size_t gone, const char *what) {
+                // exact for operations that only remove (nothing is constructed or shifted); `at_least` for erase(range), where an
+                // implementation may legitimately destroy and re-create the shifted tail as well
+                auto expect_destroyed = [&](long before, size_t gone, const char *what, bool at_least = false) {
                     long h = dtor_count<E>();
                     if (h < 0) return;
                     if (gone) probe("handle_elements_destroyed");
-                    if (h - before != (long)gone) violate(std::string("C02/lifetime-destructor-count@") + what, "%s removed %zu elements of a vector<Handle>, but %ld destructors ran", what, gone, h - before);
+                    if (at_least ? (h - before < (long)gone) : (h - before != (long)gone)) violate(std::string("C02/lifetime-destructor-count@") + what, "%s removed %zu elements of a vector<Handle>, but %ld destructors ran", what, gone, h - before);
                 };
                 auto check = [&](const char *when) {
                     check_deferred();
@@ -261,7 +263,7 @@ namespace
                         if (b < mx.size() && a < b) mid_edit = true;
                         long h0 = dtor_count<E>();
                         x.erase(x.begin() + a, x.begin() + b);
-                        expect_destroyed(h0, b - a, "erase(range)");
+                        expect_destroyed(h0, b - a, "erase(range)", true);
                         mx.erase(mx.begin() + a, mx.begin() + b);
                         break;
                     }
